@@ -7,3 +7,7 @@ def check(run, tier, seed, replay=None):
                        "C06 status claims more than the pass observed (Available/controllerOf/Succeeded/InTransition/Archived)",
                        "seeded random worlds over all lifecycle states with stored conditions for older generations, Succeeded already set, "
                        "stale controllerOf; every status request compared with the members' states after the same pass")
+    if not replay:
+        # the gate / the Available condition rest on what the phase reconciler records from the prober (machinery of C17)
+        import C17
+        C17.probe_stage(run, "C06", tier, seed, "C06 Available=True can be reported although a probe fails: the phase reconciler does not record a failing probe (e.g. one with an empty message)")
